@@ -342,6 +342,7 @@ func (s *Set[E]) Clear() {
 	h.flags.SetTrue(fullyLinked)
 	s.header = h
 	s.highestLevel = defaultHighestLevel
+	atomic.StoreInt64(&s.length, 0)
 }
 
 func (s *Set[E]) Values() []E {
